@@ -1,0 +1,162 @@
+//go:build verif
+
+// Contracts for the verification machinery in /verif (comment-only; compiled only with -tags verif).
+package types
+
+// ---------------------------------------------------------------- store keys (byte level)
+
+//@ func GetPurchaseOrderIDBytes(purchaseOrderID) (bz)
+//@   props C18
+//@   nopanic
+//@   ensures len(bz) == 8 && bz != nil && be64at(arr(bz), 0, purchaseOrderID)
+
+//@ func GetPurchaseOrderIDFromBytes(bz) (id)
+//@   props C18
+//@   requires len(bz) >= 8
+//@   nopanic
+//@   ensures be64at(arr(bz), 0, id)
+
+//@ func PurchaseOrderKey(id) (key)
+//@   props C18
+//@   nopanic
+//@   ensures len(key) == 9 && key != nil && key[0] == 1 && be64at(arr(key), 1, id)
+
+//@ func RaisedQueueStoreKey(id) (key)
+//@   props C18
+//@   nopanic
+//@   ensures len(key) == 9 && key != nil && key[0] == 4 && be64at(arr(key), 1, id)
+
+//@ func AcceptedQueueStoreKey(id) (key)
+//@   props C18
+//@   nopanic
+//@   ensures len(key) == 9 && key != nil && key[0] == 5 && be64at(arr(key), 1, id)
+
+//@ func LockedUndAddressStoreKey(acc) (key)
+//@   props C18
+//@   requires 1 <= len(acc) && len(acc) <= 255
+//@   nopanic
+//@   ensures len(key) == 1 + len(acc) && key != nil && key[0] == 2
+//@   ensures forall i int :: {acc[i]} 0 <= i && i < len(acc) ==> key[1+i] == acc[i]
+//@   ensures forall j int :: {key[j]} 1 <= j && j < len(key) ==> key[j] == acc[j-1]
+
+//@ func WhitelistAddressStoreKey(acc) (key)
+//@   props C18
+//@   requires 1 <= len(acc) && len(acc) <= 255
+//@   nopanic
+//@   ensures len(key) == 1 + len(acc) && key != nil && key[0] == 3
+//@   ensures forall i int :: {acc[i]} 0 <= i && i < len(acc) ==> key[1+i] == acc[i]
+//@   ensures forall j int :: {key[j]} 1 <= j && j < len(key) ==> key[j] == acc[j-1]
+
+//@ func SpentEFUNDAddressStoreKey(acc) (key)
+//@   props C18
+//@   requires 1 <= len(acc) && len(acc) <= 255
+//@   nopanic
+//@   ensures len(key) == 1 + len(acc) && key != nil && key[0] == 6
+//@   ensures forall i int :: {acc[i]} 0 <= i && i < len(acc) ==> key[1+i] == acc[i]
+//@   ensures forall j int :: {key[j]} 1 <= j && j < len(key) ==> key[j] == acc[j-1]
+
+//@ func SplitRaisedQueueKey(key) (id)
+//@   props C18
+//@   requires len(key) == 9
+//@   nopanic
+//@   ensures be64at(arr(key), 1, id)
+
+//@ func SplitAcceptedQueueKey(key) (id)
+//@   props C18
+//@   requires len(key) == 9
+//@   nopanic
+//@   ensures be64at(arr(key), 1, id)
+
+//@ lemma po_id_roundtrip [C18]
+//@   vars a uint64
+//@   call bz := GetPurchaseOrderIDBytes(a)
+//@   call b := GetPurchaseOrderIDFromBytes(bz)
+//@   use be64_recon(a)
+//@   use be64_recon(b)
+//@   show a == b
+
+//@ lemma raised_queue_key_roundtrip [C18]
+//@   vars a uint64
+//@   call k := RaisedQueueStoreKey(a)
+//@   call b := SplitRaisedQueueKey(k)
+//@   use be64_recon(a)
+//@   use be64_recon(b)
+//@   show a == b
+
+//@ lemma accepted_queue_key_roundtrip [C18]
+//@   vars a uint64
+//@   call k := AcceptedQueueStoreKey(a)
+//@   call b := SplitAcceptedQueueKey(k)
+//@   use be64_recon(a)
+//@   use be64_recon(b)
+//@   show a == b
+
+//@ lemma po_key_injective [C18]
+//@   vars a uint64, b uint64
+//@   call k1 := PurchaseOrderKey(a)
+//@   call k2 := PurchaseOrderKey(b)
+//@   assume bytesEq(k1, k2)
+//@   use be64_recon(a)
+//@   use be64_recon(b)
+//@   show a == b
+
+//@ lemma raised_key_injective [C18]
+//@   vars a uint64, b uint64
+//@   call k1 := RaisedQueueStoreKey(a)
+//@   call k2 := RaisedQueueStoreKey(b)
+//@   assume bytesEq(k1, k2)
+//@   use be64_recon(a)
+//@   use be64_recon(b)
+//@   show a == b
+
+//@ lemma accepted_key_injective [C18]
+//@   vars a uint64, b uint64
+//@   call k1 := AcceptedQueueStoreKey(a)
+//@   call k2 := AcceptedQueueStoreKey(b)
+//@   assume bytesEq(k1, k2)
+//@   use be64_recon(a)
+//@   use be64_recon(b)
+//@   show a == b
+
+//@ lemma locked_key_injective [C18]
+//@   vars a Addr, b Addr
+//@   call k1 := LockedUndAddressStoreKey(a)
+//@   call k2 := LockedUndAddressStoreKey(b)
+//@   assume bytesEq(k1, k2)
+//@   show bytesEq(a, b)
+
+//@ lemma whitelist_key_injective [C18]
+//@   vars a Addr, b Addr
+//@   call k1 := WhitelistAddressStoreKey(a)
+//@   call k2 := WhitelistAddressStoreKey(b)
+//@   assume bytesEq(k1, k2)
+//@   show bytesEq(a, b)
+
+//@ lemma spent_key_injective [C18]
+//@   vars a Addr, b Addr
+//@   call k1 := SpentEFUNDAddressStoreKey(a)
+//@   call k2 := SpentEFUNDAddressStoreKey(b)
+//@   assume bytesEq(k1, k2)
+//@   show bytesEq(a, b)
+
+// ascending iteration of the purchase-order section is ascending id
+//@ lemma po_key_order [C18]
+//@   vars a uint64, b uint64
+//@   call k1 := PurchaseOrderKey(a)
+//@   call k2 := PurchaseOrderKey(b)
+//@   assume a < b
+//@   use be64_recon(a)
+//@   use be64_recon(b)
+//@   show k1[0] == k2[0] && lexLess8(arr(k1), 1, arr(k2), 1)
+
+// sections: 0x01 orders, 0x02 locked, 0x03 whitelist, 0x04 raised queue, 0x05 accepted queue, 0x06 spent,
+// 0x07 params, 0x20 highest id, 0x98 total spent, 0x99 total locked
+//@ lemma enterprise_sections_disjoint [C18]
+//@   vars a uint64, b uint64, c uint64, x Addr, y Addr, z Addr
+//@   call k1 := PurchaseOrderKey(a)
+//@   call k2 := LockedUndAddressStoreKey(x)
+//@   call k3 := WhitelistAddressStoreKey(y)
+//@   call k4 := RaisedQueueStoreKey(b)
+//@   call k5 := AcceptedQueueStoreKey(c)
+//@   call k6 := SpentEFUNDAddressStoreKey(z)
+//@   show k1[0] == 1 && k2[0] == 2 && k3[0] == 3 && k4[0] == 4 && k5[0] == 5 && k6[0] == 6
